@@ -8,6 +8,7 @@ package checks
 
 import (
 	"encoding/binary"
+	"encoding/json"
 	"encoding/hex"
 	"fmt"
 	"hash/crc32"
@@ -327,4 +328,26 @@ func runForeignCase(c *foreignCase) (res foreignResult) {
 		}
 	}
 	return
+}
+
+// replayForeign re-executes a recorded foreign-table case; which = "C02" | "C03" | "C14". ok=false: not such a case.
+func replayForeign(raw []byte, which string) (string, bool) {
+	var f struct {
+		Foreign *foreignCase `json:"foreign"`
+	}
+	if json.Unmarshal(raw, &f) != nil || f.Foreign == nil {
+		return "", false
+	}
+	res := runForeignCase(f.Foreign)
+	sig, msg := res.C02Sig, res.C02Msg
+	switch which {
+	case "C03":
+		sig, msg = res.C03Sig, res.C03Msg
+	case "C14":
+		sig, msg = res.C14Sig, res.C14Msg
+	}
+	if sig == "" {
+		return "holds", true
+	}
+	return sig + ": " + msg, true
 }
